@@ -134,38 +134,47 @@ fn violations(ctx: &mut Ctx, prog: &[u8]) -> Vec<(&'static str, Vec<u8>)> {
             break;
         }
     }
-    // a shared node duplicated: one of its users points to a fresh copy
-    for _ in 0..6 {
-        let i = r.below(n as u64) as usize;
-        let ch = ns[i].children();
-        if ch.is_empty() {
-            continue;
-        }
-        let c = ch[r.below(ch.len() as u64) as usize];
-        // copy of node c inserted right before i; node i's reference to c moves to the copy
-        let mut v: Vec<W> = vec![];
-        for (k, w) in ns.iter().enumerate() {
-            if k == i {
-                v.push(ns[c].clone());
+    // a shared node duplicated: one of its users points to a fresh copy while the original stays in
+    // use elsewhere (so the only rule broken is sharing).  One violation per distinct kind of shared
+    // node, so that leaves of every kind (iden, unit, jets, words) and combinators are all covered.
+    {
+        let mut uses: Vec<Vec<(usize, usize)>> = vec![vec![]; n]; // c -> (user, slot)
+        for (i, w) in ns.iter().enumerate() {
+            for (slot, c) in w.children().into_iter().enumerate() {
+                uses[c].push((i, slot));
             }
-            let shifted = w.map_children(&|x| if x >= i { x + 1 } else { x });
-            if k == i {
-                let copy_idx = i;
-                v.push(w.map_children(&|x| {
-                    if x == c {
-                        copy_idx
-                    } else if x >= i {
-                        x + 1
-                    } else {
-                        x
+        }
+        let mut kinds_done: Vec<std::mem::Discriminant<W>> = vec![];
+        let mut order: Vec<usize> = (0..n).collect();
+        for k in (1..n).rev() {
+            order.swap(k, r.below(k as u64 + 1) as usize);
+        }
+        for c in order {
+            if uses[c].len() < 2 || matches!(ns[c], W::Witness | W::Hidden(_)) {
+                continue;
+            }
+            let d = std::mem::discriminant(&ns[c]);
+            if kinds_done.contains(&d) || kinds_done.len() >= 4 {
+                continue;
+            }
+            kinds_done.push(d);
+            let (i, slot) = uses[c][1 + r.below(uses[c].len() as u64 - 1) as usize];
+            // copy of node c inserted right before i; that one reference of node i moves to the copy
+            let mut v: Vec<W> = vec![];
+            for (k, w) in ns.iter().enumerate() {
+                if k == i {
+                    v.push(ns[c].clone());
+                    let mut chs = w.children();
+                    for (j, x) in chs.iter_mut().enumerate() {
+                        *x = if j == slot { i } else if *x >= i { *x + 1 } else { *x };
                     }
-                }));
-            } else {
-                v.push(shifted);
+                    v.push(w.with_children(&chs));
+                } else {
+                    v.push(w.map_children(&|x| if x >= i { x + 1 } else { x }));
+                }
             }
+            out.push(("unshared-duplicate", wire::assemble(&v)));
         }
-        out.push(("unshared-duplicate", wire::assemble(&v)));
-        break;
     }
     // a second hidden node with the root of an existing one
     if let Some(h) = ns.iter().find_map(|w| if let W::Hidden(h) = w { Some(h.clone()) } else { None }) {
@@ -261,6 +270,44 @@ pub fn run(ctx: &mut Ctx) {
             cdec_one(ctx, &red.unfinalize().map(|c| c.to_vec_without_witness()).unwrap_or_default(), "valid");
             let m = codec::mutate(&mut ctx.rng, &pb);
             cdec_one(ctx, &m, "mutated");
+        }
+    }
+    // 1b. twins: `comp fail (comp (pair L L) unit)` with the leaf L written out twice, for every kind of leaf
+    //     (each Elements jet, iden, unit, words): the sharing rule must hold for each of them
+    {
+        let mut leaves: Vec<(String, W)> = vec![("iden".into(), W::Iden), ("unit".into(), W::Unit)];
+        for k in [1u64, 2, 4, 7] {
+            leaves.push((format!("word{k}"), W::Word(k, (0..(1usize << (k - 1))).map(|_| ctx.rng.bool()).collect())));
+        }
+        let all = &simplicity::jet::Elements::ALL[..];
+        let take = ctx.scale(60, all.len() as u64) as usize;
+        let start = ctx.rng.below(all.len() as u64) as usize;
+        for k in 0..take.min(all.len()) {
+            let j = all[(start + k * 7) % all.len()];
+            let mut bits = vec![];
+            let nb = {
+                let sink: &mut dyn std::io::Write = &mut bits;
+                let mut w = simplicity::BitWriter::new(sink);
+                simplicity::jet::Jet::encode(&j, &mut w).unwrap();
+                let nb = w.n_total_written();
+                w.flush_all().unwrap();
+                nb
+            };
+            let jb: Vec<bool> = (0..nb).map(|i| bits[i / 8] >> (7 - i % 8) & 1 == 1).collect();
+            leaves.push((format!("jet:{j}"), W::Jet(jb))); // W::Jet holds the bits after the `11` prefix
+        }
+        for (name, l) in leaves {
+            // a fail node in front supplies the leaf's source type, so that the root is 1 → 1
+            let f = W::Fail((0..512).map(|i| i % 3 == 0).collect());
+            let canon = vec![f.clone(), l.clone(), W::Pair(1, 1), W::Unit, W::Comp(2, 3), W::Comp(0, 4)];
+            let twin = vec![f.clone(), l.clone(), l.clone(), W::Pair(1, 2), W::Unit, W::Comp(3, 4), W::Comp(0, 5)];
+            if dec_one(ctx, &wire::assemble(&canon), &[], "twin-canonical", true) == Some(true) {
+                ctx.count("reach:twin-canonical-accepted");
+            } else {
+                ctx.note(&format!("twin family: canonical form of {name} was not accepted"));
+            }
+            dec_one(ctx, &wire::assemble(&twin), &[], "unshared-duplicate", true);
+            cdec_one(ctx, &wire::assemble(&twin), "unshared-duplicate");
         }
     }
     // 2. random bytes
